@@ -409,6 +409,21 @@ fn real_parse_expr(rd: &Rendered) -> String {
 
 const STMT_PREFIX: &str = "SELECT * FROM t WHERE ";
 
+/// Which model describes the statement parser's Pratt copy: `parse_nolimit` (no depth counter, the
+/// code as it is today) or `parse` (MAX_DEPTH = 64, once the proposed fix is applied). Probed on the
+/// real parser at start-up so that the correspondence stays exact in both worlds; the stack-overflow
+/// oracle of the adversarial stream does not depend on it.
+static STMT_MODEL_OP: std::sync::OnceLock<&'static str> = std::sync::OnceLock::new();
+fn stmt_model_op() -> &'static str {
+    STMT_MODEL_OP.get_or_init(|| {
+        let probe = format!("{STMT_PREFIX}{}1", "- ".repeat(70));
+        match np::parse(&probe) {
+            Err(e) if matches!(e.kind, ParseErrorKind::TooDeep) => "parse",
+            _ => "parse_nolimit",
+        }
+    })
+}
+
 /// WHERE clause of `SELECT * FROM t WHERE <text>` through the statement parser.
 /// Returns (answer, whole statement consumed?)
 fn real_parse_where(rd: &Rendered) -> String {
@@ -477,6 +492,23 @@ fn make_atoms(r: &mut Rng, n: usize, rich: bool, no_ident: bool, rep: &mut Repor
     (texts, sxs)
 }
 
+thread_local! {
+    static REPORTED: std::cell::RefCell<std::collections::BTreeMap<String, u32>> = Default::default();
+}
+/// at most three witnesses per violation class; all are counted in the distribution
+fn viol_once(rep: &mut Report, class: &str, what: &str, input: serde_json::Value) {
+    rep.hit(&format!("violation.{class}"));
+    let n = REPORTED.with(|r| {
+        let mut r = r.borrow_mut();
+        let e = r.entry(class.to_string()).or_insert(0);
+        *e += 1;
+        *e
+    });
+    if n <= 3 {
+        rep.violation(class, what, input);
+    }
+}
+
 fn tree_case(m: &mut Model, rep: &mut Report, r: &mut Rng, t: &T, natoms: usize, stream: &str) {
     let rich = r.chance(1, 3);
     let fancy = r.chance(1, 4);
@@ -521,21 +553,21 @@ fn tree_case(m: &mut Model, rep: &mut Report, r: &mut Rng, t: &T, natoms: usize,
         rep.hit(&format!("expr.result.{}", imp.split(' ').take(2).collect::<Vec<_>>().join("_").replace(|c: char| !c.is_ascii_alphanumeric() && c != '_', "")));
         // --- statement parser (own Pratt copy)
         let simp = real_parse_where(&rd);
-        let smodel = expand(&m.ask(&format!("parse_nolimit {}", words.join(" "))), &atom_sx);
+        let smodel = expand(&m.ask(&format!("{} {}", stmt_model_op(), words.join(" "))), &atom_sx);
         let s2 = format!("stmt.{mode}");
         rep.case(&s2, if nontrivial { Some(&key) } else { None });
         rep.compare(&s2, || json!({"text": format!("{STMT_PREFIX}{}", rd.text), "tokens": words.join(" ")}), &simp, &smodel);
         // --- oracle on the implementation: the parse IS the generated tree
         let frames_mode: usize = m.ask(&format!("frames {mode} {pol}")).parse().unwrap_or(0);
         if frames_mode <= 64 && imp != expected {
-            rep.violation(
+            viol_once(rep, 
                 "neumann_parser::parse_expr/precedence",
                 &format!("{mode}-parenthesised print of a tree does not parse back to the tree: got {imp}, want {expected}"),
                 json!({"text": rd.text, "tree": pol}),
             );
         }
-        if simp != expected {
-            rep.violation(
+        if (stmt_model_op() == "parse_nolimit" || frames_mode <= 64) && simp != expected {
+            viol_once(rep, 
                 "neumann_parser::parse/precedence",
                 &format!("statement parser: {mode}-parenthesised print does not parse back to the tree: got {simp}, want {expected}"),
                 json!({"text": format!("{STMT_PREFIX}{}", rd.text), "tree": pol}),
@@ -550,7 +582,7 @@ fn tree_case(m: &mut Model, rep: &mut Report, r: &mut Rng, t: &T, natoms: usize,
     if let Some((_, first)) = impl_answers.first() {
         for (mode, a) in &impl_answers[1..] {
             if a != first {
-                rep.violation(
+                viol_once(rep, 
                     "neumann_parser::parse_expr/paren_invariance",
                     &format!("min-print and {mode}-print parse differently: {first} vs {a}"),
                     json!({"tree": pol}),
@@ -616,7 +648,7 @@ fn soup_case(m: &mut Model, rep: &mut Report, r: &mut Rng, words: Vec<String>, s
     rep.hit(&format!("{stream}.result.{}", tag.replace(')', "rparen")));
     // statement parser on the same tokens: compared only when the model accepts (a statement ignores
     // trailing tokens and continues with GROUP BY…, so its error behaviour is not the expression core's)
-    let smodel = expand(&m.ask(&format!("parse_nolimit {}", words.join(" "))), &atom_sx);
+    let smodel = expand(&m.ask(&format!("{} {}", stmt_model_op(), words.join(" "))), &atom_sx);
     if smodel.starts_with("ok") {
         let simp = real_parse_where(&rd);
         let s2 = format!("{stream}.stmt");
@@ -1030,6 +1062,16 @@ fn child_main() {
 struct Adv {
     w: Worker,
     stack_kb: usize,
+    /// violation classes already reported (one witness per class; the rest are counted)
+    reported: std::collections::BTreeSet<String>,
+}
+
+/// one witness per violation class; further hits are only counted
+fn once(reported: &mut std::collections::BTreeSet<String>, rep: &mut Report, class: &str, what: &str, input: serde_json::Value) {
+    rep.hit(&format!("violation.{class}"));
+    if reported.insert(class.to_string()) {
+        rep.violation(class, what, input);
+    }
 }
 
 impl Adv {
@@ -1038,11 +1080,12 @@ impl Adv {
     fn run(&mut self, rep: &mut Report, stream: &str, site: &str, api: &str, src: &str, what: &str) -> String {
         let line = format!("{api} {} {}", self.stack_kb, hex(src.as_bytes()));
         let t0 = Instant::now();
+        let stack_kb = self.stack_kb;
         let ans = self.w.ask(&line, Duration::from_secs(20));
         rep.case(stream, None);
         let short = |s: &str| -> serde_json::Value {
             if s.len() <= 300 {
-                json!({"api": api, "text": s, "stack_kb": self.stack_kb, "gen": what})
+                json!({"api": api, "text": s, "stack_kb": stack_kb, "gen": what})
             } else {
                 let mut a = 120;
                 while !s.is_char_boundary(a) {
@@ -1052,7 +1095,7 @@ impl Adv {
                 while !s.is_char_boundary(b) {
                     b += 1;
                 }
-                json!({"api": api, "text_head": &s[..a], "text_tail": &s[b..], "len": s.len(), "stack_kb": self.stack_kb, "gen": what})
+                json!({"api": api, "text_head": &s[..a], "text_tail": &s[b..], "len": s.len(), "stack_kb": stack_kb, "gen": what})
             }
         };
         let out = match ans {
@@ -1061,7 +1104,7 @@ impl Adv {
                 let k = if kind == "hang" { "hang" } else { self.w.death_kind() };
                 self.w.kill();
                 self.w = Worker::spawn();
-                rep.violation(
+                once(&mut self.reported, rep, 
                     &format!("{site}/{k}"),
                     &format!(
                         "{api} on a {}-byte input ({what}) in a thread with a {} KiB stack: {}",
@@ -1093,14 +1136,14 @@ impl Adv {
                 let fmt = it.next().unwrap_or("?");
                 rep.hit(&format!("{stream}.outcome.err.{kind}"));
                 if !(s <= e && e <= src.len()) {
-                    rep.violation(
+                    once(&mut self.reported, rep, 
                         &format!("{site}/span_outside_input"),
                         &format!("error span {s}..{e} not inside input of {} bytes", src.len()),
                         short(src),
                     );
                 }
                 if fmt != "fmt_ok" {
-                    rep.violation(
+                    once(&mut self.reported, rep, 
                         "neumann_parser::ParseError::format_with_source/panic",
                         &format!("format_with_source panics on the error returned by {api} (span {s}..{e}); QueryRouter::execute_parsed calls it on every parse error"),
                         short(src),
@@ -1109,14 +1152,14 @@ impl Adv {
             }
             "panic" => {
                 rep.hit(&format!("{stream}.outcome.panic"));
-                rep.violation(&format!("{site}/panic"), &format!("{api} panicked ({what})"), short(src));
+                once(&mut self.reported, rep, &format!("{site}/panic"), &format!("{api} panicked ({what})"), short(src));
             }
             "nondet" => {
                 rep.hit(&format!("{stream}.outcome.nondet"));
-                rep.violation(&format!("{site}/nondeterministic"), &out, short(src));
+                once(&mut self.reported, rep, &format!("{site}/nondeterministic"), &out, short(src));
             }
             "badspan" => {
-                rep.violation(&format!("{site}/span_outside_input"), "token spans not monotone / outside input", short(src));
+                once(&mut self.reported, rep, &format!("{site}/span_outside_input"), "token spans not monotone / outside input", short(src));
             }
             other => {
                 rep.note(&format!("child answered unknown line {other}"));
@@ -1239,7 +1282,7 @@ fn nested(open: &str, close: &str, inner: &str, n: usize, closed: bool) -> Strin
 fn stream_adversarial(rep: &mut Report, rng: &Rng, thorough: bool) {
     let mut r = rng.fork("adversarial");
     // 2 MiB = Rust's default stack for spawned threads (and tokio workers, where a server runs queries)
-    let mut adv = Adv { w: Worker::spawn(), stack_kb: 2048 };
+    let mut adv = Adv { w: Worker::spawn(), stack_kb: 2048, reported: Default::default() };
     let apis = ["parse", "parse_all", "parse_expr", "tokenize"];
     let site_of = |api: &str| format!("neumann_parser::{api}");
 
@@ -1389,6 +1432,288 @@ fn stream_adversarial(rep: &mut Report, rng: &Rng, thorough: bool) {
 }
 
 
+// ------------------------------------------------------------------ stream (iii): text vs direct engine call
+
+use relational_engine::{Column, ColumnType, Condition, Schema, Value as RV};
+
+#[derive(Clone, Debug)]
+enum Cond {
+    Leaf(&'static str, &'static str, i64),
+    Name(&'static str, &'static str),
+    And(Box<Cond>, Box<Cond>),
+    Or(Box<Cond>, Box<Cond>),
+}
+
+impl Cond {
+    fn gen(r: &mut Rng, depth: usize) -> Cond {
+        if depth == 0 || r.chance(1, 4) {
+            if r.chance(1, 6) {
+                return Cond::Name(*r.pick(&["=", "!="]), *r.pick(&["x", "y", "z"]));
+            }
+            return Cond::Leaf(*r.pick(&["a", "b", "c"]), *r.pick(&["=", "!=", "<", "<=", ">", ">="]), r.below(4) as i64);
+        }
+        let l = Box::new(Cond::gen(r, depth - 1));
+        let rr = Box::new(Cond::gen(r, depth - 1));
+        if r.chance(1, 2) {
+            Cond::And(l, rr)
+        } else {
+            Cond::Or(l, rr)
+        }
+    }
+    fn level(&self) -> u8 {
+        match self {
+            Cond::Or(..) => 1,
+            Cond::And(..) => 2,
+            _ => 3,
+        }
+    }
+    /// documented precedence: AND above OR, both left-associative; `full` parenthesises every compound operand
+    fn print(&self, full: bool, out: &mut String) {
+        fn operand(c: &Cond, need: bool, full: bool, out: &mut String) {
+            let w = need || (full && c.level() < 3);
+            if w {
+                out.push('(');
+            }
+            c.print(full, out);
+            if w {
+                out.push(')');
+            }
+        }
+        match self {
+            Cond::Leaf(c, op, v) => out.push_str(&format!("{c} {op} {v}")),
+            Cond::Name(op, v) => out.push_str(&format!("name {op} '{v}'")),
+            Cond::And(l, r) => {
+                operand(l, l.level() < 2, full, out);
+                out.push_str(" AND ");
+                operand(r, r.level() <= 2, full, out);
+            }
+            Cond::Or(l, r) => {
+                operand(l, false, full, out);
+                out.push_str(" OR ");
+                operand(r, r.level() <= 1, full, out);
+            }
+        }
+    }
+    fn direct(&self) -> Condition {
+        match self {
+            Cond::Leaf(c, op, v) => {
+                let (c, v) = (c.to_string(), RV::Int(*v));
+                match *op {
+                    "=" => Condition::Eq(c, v),
+                    "!=" => Condition::Ne(c, v),
+                    "<" => Condition::Lt(c, v),
+                    "<=" => Condition::Le(c, v),
+                    ">" => Condition::Gt(c, v),
+                    _ => Condition::Ge(c, v),
+                }
+            }
+            Cond::Name(op, v) => {
+                let (c, v) = ("name".to_string(), RV::String(v.to_string()));
+                if *op == "=" {
+                    Condition::Eq(c, v)
+                } else {
+                    Condition::Ne(c, v)
+                }
+            }
+            Cond::And(l, r) => l.direct().and(r.direct()),
+            Cond::Or(l, r) => l.direct().or(r.direct()),
+        }
+    }
+    fn has(&self, and: bool) -> bool {
+        match self {
+            Cond::And(l, r) => and || l.has(and) || r.has(and),
+            Cond::Or(l, r) => !and || l.has(and) || r.has(and),
+            _ => false,
+        }
+    }
+}
+
+fn twin() -> query_router::QueryRouter {
+    let q = query_router::QueryRouter::new();
+    let schema = Schema::new(vec![
+        Column::new("a", ColumnType::Int),
+        Column::new("b", ColumnType::Int),
+        Column::new("c", ColumnType::Int),
+        Column::new("name", ColumnType::String),
+    ]);
+    q.relational().create_table("t", schema).expect("create");
+    let mut k = 0i64;
+    for a in 0..4i64 {
+        for b in 0..4i64 {
+            for c in 0..3i64 {
+                let mut m = std::collections::HashMap::new();
+                m.insert("a".to_string(), RV::Int(a));
+                m.insert("b".to_string(), RV::Int(b));
+                m.insert("c".to_string(), RV::Int((c + k) % 4));
+                m.insert("name".to_string(), RV::String(["x", "y", "z"][(k % 3) as usize].to_string()));
+                q.relational().insert("t", m).expect("insert");
+                k += 1;
+            }
+        }
+    }
+    q
+}
+
+fn canon_rows(rows: &[relational_engine::Row]) -> String {
+    let mut v: Vec<String> = rows
+        .iter()
+        .map(|r| {
+            let mut cols: Vec<String> = r.values.iter().filter(|(k, _)| k != "_id").map(|(k, v)| format!("{k}={v:?}")).collect();
+            cols.sort();
+            format!("#{} {}", r.id, cols.join(","))
+        })
+        .collect();
+    v.sort();
+    format!("{} rows: {}", v.len(), v.join(" | "))
+}
+
+fn canon_qr(r: &std::result::Result<query_router::QueryResult, query_router::RouterError>) -> String {
+    match r {
+        Ok(query_router::QueryResult::Rows(rows)) => canon_rows(rows),
+        Ok(query_router::QueryResult::Count(n)) => format!("count {n}"),
+        Ok(query_router::QueryResult::Empty) => "empty".into(),
+        Ok(query_router::QueryResult::Ids(ids)) => format!("ids {ids:?}"),
+        Ok(other) => format!("other {other:?}"),
+        Err(e) => format!("error {}", format!("{e:?}").split('(').next().unwrap_or("?")),
+    }
+}
+
+fn table_state(q: &query_router::QueryRouter) -> String {
+    match q.relational().select("t", Condition::True) {
+        Ok(rows) => canon_rows(&rows),
+        Err(e) => format!("error {e:?}"),
+    }
+}
+
+fn stream_exec(rep: &mut Report, rng: &Rng, thorough: bool) {
+    let mut r = rng.fork("exec");
+    let q = twin();
+    let n = if thorough { 3000 } else { 400 };
+    let mut reported: std::collections::BTreeSet<String> = Default::default();
+    let mut viol = |rep: &mut Report, class: &str, what: String, input: serde_json::Value| {
+        rep.hit(&format!("exec.violation.{class}"));
+        if reported.insert(class.to_string()) {
+            rep.violation(class, &what, input);
+        }
+    };
+    // ---- SELECT: read-only, one database serves all three routes
+    for i in 0..n {
+        let cd = 1 + r.below(3) as usize;
+        let c = Cond::gen(&mut r, cd);
+        let want = match q.relational().select("t", c.direct()) {
+            Ok(rows) => canon_rows(&rows),
+            Err(e) => format!("error {e:?}"),
+        };
+        let mixed = c.has(true) && c.has(false);
+        rep.hit(if mixed { "exec.select.cond.and_or_mixed" } else if c.has(true) { "exec.select.cond.and_only" } else if c.has(false) { "exec.select.cond.or_only" } else { "exec.select.cond.single" });
+        for full in [false, true] {
+            let mut w = String::new();
+            c.print(full, &mut w);
+            let text = format!("SELECT * FROM t WHERE {w}");
+            let has_paren = w.contains('(');
+            // AST route
+            let text2 = text.clone();
+            let got = guarded(std::panic::AssertUnwindSafe(|| canon_qr(&q.execute_parsed(&text2)))).unwrap_or_else(|p| format!("panic {p}"));
+            rep.case("exec.select.execute_parsed", Some(&text));
+            if got != want {
+                viol(rep, "query_router::QueryRouter::execute_parsed/select_differs_from_direct_call",
+                    format!("execute_parsed(text) returned {} but RelationalEngine::select with the documented grouping returns {}", &got[..got.len().min(60)], &want[..want.len().min(60)]),
+                    json!({"text": text}));
+            }
+            // legacy string route: `execute` advertises `SELECT * FROM <table> [WHERE <condition>]`; it has no
+            // parentheses, so only parenthesis-free prints are meaningful for it
+            if !has_paren {
+                let text3 = text.clone();
+                let got = guarded(std::panic::AssertUnwindSafe(|| canon_qr(&q.execute(&text3)))).unwrap_or_else(|p| format!("panic {p}"));
+                rep.case("exec.select.execute_legacy", Some(&text));
+                if got != want {
+                    let class = if mixed {
+                        "query_router::QueryRouter::parse_condition/and_or_precedence"
+                    } else {
+                        "query_router::QueryRouter::execute/select_differs_from_direct_call"
+                    };
+                    viol(rep, class,
+                        format!("execute(text) (legacy string parser) groups the WHERE clause differently from the documented precedence (AND above OR): got {} want {}", &got[..got.len().min(40)], &want[..want.len().min(40)]),
+                        json!({"text": text, "execute_parsed_agrees_with_direct_call": true}));
+                } else {
+                    rep.hit("exec.select.execute_legacy.agrees");
+                }
+            } else if i < 40 {
+                let text3 = text.clone();
+                let got = guarded(std::panic::AssertUnwindSafe(|| canon_qr(&q.execute(&text3)))).unwrap_or_else(|p| format!("panic {p}"));
+                if got != want {
+                    rep.hit("exec.select.execute_legacy.parenthesised_text_differs");
+                }
+            }
+        }
+    }
+    // ---- DELETE / UPDATE / INSERT: twin databases, text on A, direct call on B, then compare whole tables
+    let m = if thorough { 300 } else { 60 };
+    for i in 0..m {
+        let a = twin();
+        let b = twin();
+        let cd = 1 + r.below(3) as usize;
+        let c = Cond::gen(&mut r, cd);
+        let mut w = String::new();
+        let fullp = r.chance(1, 2);
+        c.print(fullp, &mut w);
+        let (text, got, want) = match i % 3 {
+            0 => {
+                let text = format!("DELETE FROM t WHERE {w}");
+                let got = canon_qr(&a.execute_parsed(&text));
+                let want = match b.relational().delete_rows("t", c.direct()) {
+                    Ok(n) => format!("count {n}"),
+                    Err(e) => format!("error {e:?}"),
+                };
+                rep.hit("exec.family.delete");
+                (text, got, want)
+            }
+            1 => {
+                let v = r.below(9) as i64 + 10;
+                let text = format!("UPDATE t SET c = {v} WHERE {w}");
+                let got = canon_qr(&a.execute_parsed(&text));
+                let mut up = std::collections::HashMap::new();
+                up.insert("c".to_string(), RV::Int(v));
+                let want = match b.relational().update("t", c.direct(), up) {
+                    Ok(n) => format!("count {n}"),
+                    Err(e) => format!("error {e:?}"),
+                };
+                rep.hit("exec.family.update");
+                (text, got, want)
+            }
+            _ => {
+                let (x, y, z) = (r.below(50) as i64, r.below(50) as i64, r.below(50) as i64);
+                let text = format!("INSERT INTO t (a, b, c, name) VALUES ({x}, {y}, {z}, 'n{i}')");
+                let got = canon_qr(&a.execute_parsed(&text));
+                let mut mm = std::collections::HashMap::new();
+                mm.insert("a".to_string(), RV::Int(x));
+                mm.insert("b".to_string(), RV::Int(y));
+                mm.insert("c".to_string(), RV::Int(z));
+                mm.insert("name".to_string(), RV::String(format!("n{i}")));
+                let want = match b.relational().insert("t", mm) {
+                    Ok(id) => format!("ids [{id}]"),
+                    Err(e) => format!("error {e:?}"),
+                };
+                rep.hit("exec.family.insert");
+                (text, got, want)
+            }
+        };
+        rep.case("exec.effect.execute_parsed", Some(&text));
+        let (sa, sb) = (table_state(&a), table_state(&b));
+        if sa != sb {
+            viol(rep, "query_router::QueryRouter::execute_parsed/effect_differs_from_direct_call",
+                format!("after the statement the table differs from the direct call's ({} vs {})", &sa[..sa.len().min(30)], &sb[..sb.len().min(30)]),
+                json!({"text": text}));
+        }
+        if got != want {
+            rep.hit("exec.effect.result_shape_differs");
+            if rep.observations.len() < 18 {
+                rep.observe(json!({"text": text, "execute_parsed_result": &got[..got.len().min(80)], "direct_result": &want[..want.len().min(80)]}));
+            }
+        }
+    }
+}
+
 // ------------------------------------------------------------------ main
 
 fn main() {
@@ -1402,10 +1727,13 @@ fn main() {
         "non-trivial = a generated expression tree of depth ≥ 2 (distinct rendered text per parenthesisation mode) whose real parse is a compound AST, or a token-soup case of ≥ 3 tokens (distinct text)",
     );
     let mut m = Model::spawn(&args.driver);
+    rep.note(&format!("statement parser's expression loop corresponds to model op `{}` (probed: 70 nested prefix operators {})", stmt_model_op(), if stmt_model_op() == "parse" { "answer TooDeep" } else { "are accepted: no depth limit" }));
+    rep.hit(&format!("stmt_parser.model.{}", stmt_model_op()));
     stream_trees(&mut m, &mut rep, &rng, args.thorough);
     stream_soup(&mut m, &mut rep, &rng, args.thorough);
     stream_boundary(&mut m, &mut rep, &rng);
     stream_adversarial(&mut rep, &rng, args.thorough);
+    stream_exec(&mut rep, &rng, args.thorough);
     rep.note("postfix/special forms (IS NULL, IN, BETWEEN, LIKE, calls, CASE, arrays, tuples, qualified names) are opaque atoms of the model; their inner structure is compared only through the real parser's own AST of the atom text");
     rep.note("statement-parser error behaviour (trailing tokens are not rejected by parse()) is outside the expression-core model; stmt.* streams compare accepted expressions only");
     rep.write(&args.out);
